@@ -260,6 +260,23 @@ def run(ctx):
                     idx.append(off)
                 ok = idx == list(range(width))
         ctx.check(ok, "C04.2", "primitive:" + nm, "from_be_bytes([octets[pos], .. octets[pos+%d]])" % (width - 1), "%s does not read %d consecutive big-endian octets" % (nm, width), pf.loc())
+    # the cursor advances by exactly the octets consumed (directly, or by delegating to take(n), which advances by n)
+    for nm, width in (("next_u8", 1), ("next_u16", 2), ("next_u32", 4), ("take", "param2")):
+        pf = prog.fn(CB + nm)
+        pr = A.Resolver(pf)
+        stores = [(b, i, st) for b, i, kind, st in A.field_writes(pf, DES + "ConsumableBuffer", "position") if kind == "store"]
+        adv = []
+        for b, i, st in stores:
+            ar = A.arith(pr.rvalue(st["rv"], (b, i)))
+            if ar is not None and ar[1] == "Add" and A.path_str(ar[2]) == "param1.position":
+                inc = A.peel(ar[3])
+                adv.append(inc[2] if inc[0] == "const" else A.path_str(inc))
+            else:
+                adv.append("?")
+        via_take = [A.peel(pr.call_expr(t, b)[2][1]) for b, t in pf.calls() if (t.get("callee") or "") == CB + "take"] if nm != "take" else []
+        ok = (adv == [width] and not via_take) or (not adv and len(via_take) == 1 and via_take[0][0] == "const" and via_take[0][2] == width)
+        ctx.check(ok, "C04.2", "primitive:%s:advance" % nm, "position += %s (exactly what was consumed)" % width,
+                  "%s advances the cursor by %s (take: %s), expected %s" % (nm, adv, [A.show(x) for x in via_take], width), pf.loc())
     for nm in ("write_u16", "write_u32"):
         pf = prog.fn(WB + nm)
         pr = A.Resolver(pf)
